@@ -168,7 +168,7 @@ func initTmp(c *vlib.Ctx) {
 		base = filepath.Join(c.Out, "tmp")
 	}
 	tmpRoot = filepath.Join(base, fmt.Sprintf("p%d", os.Getpid()))
-	os.RemoveAll(tmpRoot)
+	forceRemoveAll(tmpRoot)
 	if err := os.MkdirAll(tmpRoot, 0o755); err != nil {
 		panic(err)
 	}
@@ -176,7 +176,7 @@ func initTmp(c *vlib.Ctx) {
 
 func cleanupTmp() {
 	for i := 0; i < 3; i++ {
-		if os.RemoveAll(tmpRoot) == nil {
+		if forceRemoveAll(tmpRoot) == nil {
 			break
 		}
 	}
@@ -260,7 +260,25 @@ func (s *scn) start() {
 }
 
 func (s *scn) close() {
-	os.RemoveAll(s.home)
+	forceRemoveAll(s.home)
+	forceRemoveAll(s.home + ".away")
+}
+
+// forceRemoveAll removes a tree; if that fails (an obstacle of the open-failure scenarios was
+// left behind: read-only or immutable directory) the directories are made writable first.
+func forceRemoveAll(path string) error {
+	err := os.RemoveAll(path)
+	if err == nil {
+		return nil
+	}
+	filepath.Walk(path, func(p string, fi os.FileInfo, e error) error {
+		if e == nil && fi.IsDir() {
+			os.Chmod(p, 0o777)
+			setImmutable(p, false)
+		}
+		return nil
+	})
+	return os.RemoveAll(path)
 }
 
 func (s *scn) desc() map[string]interface{} {
